@@ -18,6 +18,9 @@
 (* dc |-> calls disconnect(immediate=True) on its connection (early        *)
 (* incoming listeners only): the packet at hand still goes through every   *)
 (* later stage - only 'ignore' stops stages - and nothing is read after.   *)
+(* late |-> an incoming listener registered only after packet number lateK *)
+(* has been dispatched (listeners may be registered at any time): it takes *)
+(* part in every later packet, whatever was dispatched before.             *)
 (* Four lists: early incoming, incoming, early outgoing, outgoing.         *)
 (* The reaction of a packet occurrence takes effect between its early and  *)
 (* its ordinary listeners: every log entry records whether the effect was  *)
@@ -32,21 +35,21 @@ CONSTANTS Filters,      \* filter sets a listener may register
           Histories,    \* set of incoming packet histories (sequences over {"A","B","U"}); "D" is appended
           Emit
 
-VARIABLES EI, OI, EO, OO, hist, batch, st, forced,  \* configuration; forced: the user finally calls write_packet(force=True)
+VARIABLES EI, OI, EO, OO, hist, batch, st, forced, lateK,  \* configuration; forced: the user finally calls write_packet(force=True)
                                                     \* with a packet of kind "RA" (occurrence 99) (constant); batch: the server sends the whole
                                         \* history at once (one read batch, no write phase in between)
           k, stage, queue, log, wire, closed, ignored, nw, fdone,
           reacted,      \* occurrences whose built-in reaction has taken effect
           comp          \* compression envelope switched on
-cfgv == <<EI, OI, EO, OO, hist, batch, st, forced>>
-vars == <<EI, OI, EO, OO, hist, batch, st, forced, k, stage, queue, log, wire, closed, ignored, nw, fdone, reacted, comp>>
+cfgv == <<EI, OI, EO, OO, hist, batch, st, forced, lateK>>
+vars == <<EI, OI, EO, OO, hist, batch, st, forced, lateK, k, stage, queue, log, wire, closed, ignored, nw, fdone, reacted, comp>>
 
 Classes(p) == CASE p = "A" -> {"Packet", "Abs", "A"} [] p = "RA" -> {"Packet", "Abs", "RA"}
                 [] p = "B" -> {"Packet", "B"} [] p = "U" -> {"Packet"} [] p = "D" -> {"Packet", "D"} [] p = "C" -> {"Packet", "C"}
 HasReaction(p) == p \in {"A", "C", "D"}
 
-Listener == [f : Filters, ig : BOOLEAN, dc : {FALSE}]
-EarlyListener == Listener \cup [f : Filters, ig : {FALSE}, dc : {TRUE}]
+Listener == [f : Filters, ig : BOOLEAN, dc : {FALSE}, late : {FALSE}]
+EarlyListener == Listener \cup [f : Filters, ig : {FALSE}, dc : {TRUE}, late : {FALSE}]
 Lists(n) == UNION {[1..m -> Listener] : m \in 0..n}
 EarlyLists(n) == UNION {[1..m -> EarlyListener] : m \in 0..n}
 
@@ -59,7 +62,7 @@ Matches(l, p) == l.f \cap Classes(p) # {}
 RECURSIVE RunFrom(_, _, _, _, _, _)
 RunFrom(L, name, p, occ, i, seen) ==
   IF i > Len(L) THEN [calls |-> <<>>, ig |-> FALSE, dc |-> FALSE]
-  ELSE IF ~Matches(L[i], p) THEN RunFrom(L, name, p, occ, i + 1, seen)
+  ELSE IF ~Matches(L[i], p) \/ (L[i].late /\ occ <= lateK) THEN RunFrom(L, name, p, occ, i + 1, seen)
   ELSE IF L[i].ig THEN [calls |-> <<<<name, i, p, occ, seen>>>>, ig |-> TRUE, dc |-> FALSE]
   ELSE LET r == RunFrom(L, name, p, occ, i + 1, seen) IN
        [calls |-> <<<<name, i, p, occ, seen>>>> \o r.calls, ig |-> r.ig, dc |-> (L[i].dc \/ r.dc)]
@@ -67,7 +70,7 @@ RunList(L, name, p, occ) == RunFrom(L, name, p, occ, 1, IF name \in {"EI", "OI"}
 
 Init == /\ EI \in EarlyLists(MaxIn) /\ OI \in Lists(MaxIn) /\ EO \in Lists(MaxOut) /\ OO \in Lists(MaxOut)
         /\ \E h \in Histories : hist = h \o <<"D">>
-        /\ batch \in BOOLEAN /\ st \in States /\ forced = TRUE     \* (a run without the final forced write is a prefix of one with it)
+        /\ batch \in BOOLEAN /\ st \in States /\ lateK = 0 /\ forced = TRUE     \* (a run without the final forced write is a prefix of one with it)
         /\ k = 1 /\ stage = "early" /\ queue = <<>> /\ log = <<>> /\ wire = <<>> /\ closed = FALSE /\ ignored = FALSE /\ nw = 0 /\ fdone = FALSE
         /\ reacted = {} /\ comp = FALSE
 
